@@ -2,13 +2,13 @@ package interp
 
 import (
 	"fmt"
-	"unsafe"
-	"math"
-	"strconv"
 	"go/types"
+	"math"
 	"sort"
+	"strconv"
 	"strings"
 	"sync"
+	"unsafe"
 
 	"golang.org/x/tools/go/ssa"
 	"verif/engine/sym"
@@ -17,12 +17,12 @@ import (
 // Program is the shared, read-only part: the SSA program built from /repo plus
 // overlay, and per-function register numbering.
 type Program struct {
-	Prog    *ssa.Program
-	MainPkg map[string]*ssa.Package // by import path
+	Prog     *ssa.Program
+	MainPkg  map[string]*ssa.Package // by import path
 	PkgOrder []string
-	finfo   sync.Map                // *ssa.Function -> *funcInfo
-	RootMod string                  // import path prefix whose code is "the code under test"
-	Known   map[string]bool         // known-finding ids with status "known"
+	finfo    sync.Map        // *ssa.Function -> *funcInfo
+	RootMod  string          // import path prefix whose code is "the code under test"
+	Known    map[string]bool // known-finding ids with status "known"
 }
 
 type funcInfo struct {
@@ -134,27 +134,29 @@ type PathResult struct {
 }
 
 type Stats struct {
-	Paths          int64
-	Branches       int64
-	Forks          int64
-	Steps          int64
-	AssertsTrivial int64
-	AssertsSolver  int64
-	AssertsFailed  int64
-	AssumeCut      int64
-	Unsupported    int64
-	LimitHits      int64
-	Inconclusive   int64
-	RuntimeVCs     int64
-	DecidedNoSolve int64
-	UFFacts        int64
-	Choices        int64
-	UFRefuted      int64
-	UnsupportedWhy map[string]int64
-	Funcs          map[string]bool
-	Intrinsics     map[string]bool
-	Covers         map[string]int64
-	MaxDepth       int
+	Paths           int64
+	Branches        int64
+	Forks           int64
+	Steps           int64
+	AssertsTrivial  int64
+	AssertsSolver   int64
+	AssertsFailed   int64
+	AssumeCut       int64
+	Unsupported     int64
+	LimitHits       int64
+	Inconclusive    int64
+	RuntimeVCs      int64
+	DecidedNoSolve  int64
+	UFFacts         int64
+	Choices         int64
+	InductionProofs int64
+	MaxInductionK   int
+	UFRefuted       int64
+	UnsupportedWhy  map[string]int64
+	Funcs           map[string]bool
+	Intrinsics      map[string]bool
+	Covers          map[string]int64
+	MaxDepth        int
 }
 
 func NewStats() *Stats {
@@ -177,6 +179,10 @@ func (s *Stats) Merge(o *Stats) {
 	s.DecidedNoSolve += o.DecidedNoSolve
 	s.UFFacts += o.UFFacts
 	s.Choices += o.Choices
+	s.InductionProofs += o.InductionProofs
+	if o.MaxInductionK > s.MaxInductionK {
+		s.MaxInductionK = o.MaxInductionK
+	}
 	s.UFRefuted += o.UFRefuted
 	for k, v := range o.UnsupportedWhy {
 		s.UnsupportedWhy[k] += v
@@ -203,43 +209,47 @@ type Machine struct {
 	Stats  *Stats
 
 	// unit configuration
-	Params     map[string]interface{} // int or string
-	StepBudget int64
-	DepthMax   int
-	MapOrder   int // 0 insertion, 1 reverse, 2 explore orders
+	Params          map[string]interface{} // int or string
+	StepBudget      int64
+	DepthMax        int
+	MapOrder        int // 0 insertion, 1 reverse, 2 explore orders
 	MapOrderDefault int
 
 	// per path
-	globals   map[*ssa.Global]*Value
-	trail     []entry
-	tpos      int
-	nchosen   int // chosen entries seen so far on this path
-	known     map[*sym.Term]bool
-	steps     int64
-	depth     int
-	nondets   []NondetRec
-	obs       []Obs
-	covers    []string
-	env       map[string]Value
-	envOrder  []string
-	limDepth  map[string]int
-	limCalls  map[string]int
-	curDepth  map[string]int
-	curCalls  map[string]int
-	nvar      int
-	nopaque   int
-	inconcl   bool
-	failure   *Failure
-	outWriter map[*Value]bool
-	constC    map[*ssa.Const]Value
-	identC    map[[2]types.Type]bool
-	rtErrType types.Type
-	ufFacts   []*sym.Term
+	globals      map[*ssa.Global]*Value
+	trail        []entry
+	tpos         int
+	nchosen      int // chosen entries seen so far on this path
+	known        map[*sym.Term]bool
+	steps        int64
+	depth        int
+	nondets      []NondetRec
+	obs          []Obs
+	covers       []string
+	env          map[string]Value
+	envOrder     []string
+	limDepth     map[string]int
+	limCalls     map[string]int
+	curDepth     map[string]int
+	curCalls     map[string]int
+	nvar         int
+	nopaque      int
+	inconcl      bool
+	failure      *Failure
+	outWriter    map[*Value]bool
+	constC       map[*ssa.Const]Value
+	identC       map[[2]types.Type]bool
+	rtErrType    types.Type
+	ufFacts      []*sym.Term
 	modelRefuted bool
 	trackGlobals bool
 	gStores      []string
 	gLoads       []string
 	harnessFn    map[*ssa.Function]bool
+	ownedCells   map[*Value]string
+	Forced       []ReplayVal // concrete replay inside the engine: vNondet* return these
+	forcedPos    int
+	ownedMaps    map[*Map]string
 }
 
 func NewMachine(p *Program, solverName string, timeoutMs int) (*Machine, error) {
@@ -658,7 +668,9 @@ var ufCorpus = []string{"0", "1", "7", "-", "+", "a", "t", "T", "f", "F", "x", "
 	"false", "False", "FALSE", "0x1p4", "1_000", "32768", "65536", "-0x10", "+0x10", "1e400", "0b101", "1.e+1",
 	"0x1p-2", "-32769", "0x7fff", "999999", "1_0_0_", "Infini",
 	"2147483", "0x1p-10", "1000000", "-1e-400",
-	"Infinity", "infinity", "INFINITY", "+1_0_0_0", "0x1.8p+1", "99999999", "-9999999", "1e-99999"}
+	"Infinity", "infinity", "INFINITY", "+1_0_0_0", "0x1.8p+1", "99999999", "-9999999", "1e-99999",
+	"0.1", "3.14", "1e39", "1e309", "4e-324", "16777217", "2147483647", "2147483648", "4294967296", "-2147483649", "0.10000000149011612",
+	"9223372036854775807", "9223372036854775808", "-9223372036854775808", "-9223372036854775809", "18446744073709551616", "1e-46", "3.4e38", "3.5e38"}
 
 // corpusConstraint restricts every token fed to an uninterpreted function to the
 // corpus tokens of its length and states the true values of all functions involved.
@@ -947,7 +959,9 @@ func (m *Machine) resetPath() {
 	m.inconcl = false
 	m.failure = nil
 	m.trackGlobals = false
+	m.forcedPos = 0
 	m.gStores, m.gLoads = nil, nil
+	m.ownedCells, m.ownedMaps = nil, nil
 	if m.harnessFn == nil {
 		m.harnessFn = map[*ssa.Function]bool{}
 	}
